@@ -128,7 +128,12 @@ class Build:
             if p.returncode != 0:
                 if os.path.exists(tmp):
                     os.remove(tmp)
-                return False, out, "$ %s\n%s" % (" ".join(shlex.quote(c) for c in cmd), p.stdout[-6000:])
+                text = "$ %s\n%s" % (" ".join(shlex.quote(c) for c in cmd), p.stdout[-6000:])
+                # a compiler that was killed or ran out of resources says nothing about the library
+                if p.returncode < 0 or "internal compiler error" in p.stdout or "Killed signal" in p.stdout or "out of memory" in p.stdout or "No space left" in p.stdout or ": error:" not in p.stdout and "error:" not in p.stdout:
+                    print("INFRASTRUCTURE ERROR: compiler failed without a diagnostic about the code (exit %s)\n%s" % (p.returncode, text[-3000:]))
+                    os._exit(2)
+                return False, out, text
             os.rename(tmp, out)
             log("  built %s in %.1fs" % (self.name, time.time() - t0))
             return True, out, ""
